@@ -619,6 +619,7 @@ func apply(w *walk.Worker, ctx sdk.Context, e *graph.Edge, path []*graph.Edge, g
 			supplyBefore[d] = app.BankKeeper.GetSupply(ctx, d).Amount.String()
 		}
 		outcome, detail, events, res := s.env.Deliver(ctx, msg)
+		w.Count("outcome." + name + "." + outcome)
 		want := "rejected"
 		if graph.Bool(act["ok"]) {
 			want = "ok"
